@@ -1655,6 +1655,35 @@ def rt_c12(tier="quick", first_only=False, count=None):
     want_w = np.where(np.asarray(mask), [0.5, 1.5, 2.5], -1.0)
     if not np.allclose(np.asarray(u["w"][0]), want_w) or not np.allclose(np.asarray(u["l"][0]), 2 * np.array([0.5, 1.5, 2.5]) + 1.0):
         add(f"nested wrappers unwrap to {np.asarray(u['w'][0]).tolist()} / {np.asarray(u['l'][0]).tolist()}")
+    # a frozen SUBTREE (a whole sub-bijection / base distribution wrapped in NonTrainable, as the library's own test does): every
+    # method gives the same result as on the un-frozen model, eagerly AND under jit, and both training loops run and leave the
+    # frozen subtree bit-identical
+    n += 1
+    if (u["w"][1], u["w"][2]) != (3, "s") or type(u["w"][1]) is not int:
+        add(f"unwrap changed a static Python leaf of a container: {u['w'][1:]!r}")
+    plain = Dm.Transformed(Dm.Normal(jnp.zeros(2), jnp.ones(2)), B.Chain([B.Affine(jnp.array([0.3, -0.2]), jnp.array([1.5, 0.7])), B.Tanh((2,))]))
+    xs = plain.sample(jr.PRNGKey(3), (24,))
+    for fname, where in (("first sub-bijection of the chain", lambda t: t.bijection.bijections[0]), ("base distribution", lambda t: t.base_dist), ("whole bijection", lambda t: t.bijection)):
+        n += 1
+        frozen = eqx.tree_at(where, plain, replace_fn=NonTrainable)
+        ref = np.asarray(plain.log_prob(xs[0]))
+        for mode, call in (("eager", lambda d_: d_.log_prob(xs[0])), ("jit", lambda d_: eqx.filter_jit(lambda dd, v: dd.log_prob(v))(d_, xs[0]))):
+            try:
+                got = np.asarray(call(frozen))
+            except Exception as ex:  # noqa: BLE001
+                add(f"model with a frozen subtree ({fname} wrapped in NonTrainable): log_prob ({mode}) raised {type(ex).__name__}: {str(ex)[:140]}", frozen=fname, mode=mode)
+                continue
+            if not np.allclose(got, ref, rtol=1e-6, atol=1e-7):
+                add(f"model with a frozen subtree ({fname}): log_prob ({mode}) = {got.tolist()} but the un-frozen model gives {ref.tolist()}", frozen=fname, mode=mode)
+        try:
+            fitted, _l = fit_to_data(jr.PRNGKey(4), frozen, xs, max_epochs=2, batch_size=8, show_progress=False, optimizer=optax.adamw(1e-2, weight_decay=0.1))
+            before, after = where(frozen), where(fitted)
+            if not leaves_equal(before, after):
+                add(f"fit_to_data moved leaves of the frozen subtree ({fname})", frozen=fname)
+        except Exception as ex:  # noqa: BLE001
+            add(f"fit_to_data on a model with a frozen subtree ({fname} wrapped in NonTrainable) raised {type(ex).__name__}: {str(ex)[:140]}", frozen=fname, mode="fit_to_data")
+        if first_only and fails:
+            return fails
     # leaves marked non-trainable are not parameterised by coupling / autoregressive conditioners
     kk = jr.PRNGKey(2)
     for lname, mk in (("Coupling", lambda tr: B.Coupling(kk, transformer=tr, untransformed_dim=1, dim=3, nn_width=4, nn_depth=1)), ("Coupling(cond)", lambda tr: B.Coupling(kk, transformer=tr, untransformed_dim=1, dim=3, cond_dim=2, nn_width=4, nn_depth=1)),
@@ -1796,6 +1825,14 @@ def bijection_zoo(seed=0):
         ("Coupling(cond)", _perturb(B.Coupling(k, transformer=B.Affine(), untransformed_dim=2, dim=3, cond_dim=2, nn_width=4, nn_depth=1), 3), 2),
         ("MaskedAutoregressive(uncond, spline)", _perturb(B.MaskedAutoregressive(k, transformer=B.RationalQuadraticSpline(knots=3, interval=2.0), dim=3, nn_width=5, nn_depth=1), 6), None),
         ("MaskedAutoregressive", _perturb(B.MaskedAutoregressive(k, transformer=B.Affine(), dim=3, cond_dim=2, nn_width=4, nn_depth=1), 2), 2),
+    ]
+    from flowjax.wrappers import NonTrainable as _NT
+    zoo += [
+        # loc and scale broadcast against each other: the log-determinant counts every element the scale acts on
+        ("Affine(vector loc, scalar scale)", B.Affine(jnp.arange(3.0) * 0.4, 2.0), None), ("Affine(loc (1,4), scale (3,1))", B.Affine(jnp.ones((1, 4)) * 0.3, jnp.array([[1.5], [0.5], [2.0]])), None),
+        ("Scale(scalar)", B.Scale(jnp.array(1.7)), None),
+        # a whole sub-bijection frozen (wrapped in NonTrainable after construction, as the library's own test does)
+        ("Chain(frozen sub-bijection)", eqx.tree_at(lambda c_: c_.bijections[0], B.Chain([aff(3), B.Tanh((3,))]), replace_fn=_NT), None),
     ]
     try:
         zoo.append(("BlockAutoregressiveNetwork", B.BlockAutoregressiveNetwork(k, dim=2, depth=1, block_dim=2), None))
